@@ -26,7 +26,7 @@ ASSUME = [
     "TLC 1.8.0 and the hand transcription of udp.go into UdpNat.tla",
 ]
 
-VIRT_PROPS = U.PROPS["C14"] + ["MetricsLanguage", "PktTSound", "PktTPerReply", "ReplyAuthentic", "OwnerOnly", "OnePerClient", "SrcStable"]
+VIRT_PROPS = U.PROPS["C14"] + ["MetricsLanguage", "PktTSound", "PktTPerReply", "PktTSize", "ReplyComplete", "ReplyAuthentic", "OwnerOnly", "OnePerClient", "SrcStable"]
 
 
 def virt(ctx, behs, name="virt"):
